@@ -366,7 +366,7 @@ def _strategy():
             T = types[t]
             allp = dict(T['props'])
             alll = dict(T['links'])
-            k = i(0, 21)
+            k = i(0, 24)
             hot = [ln for ln, L in alll.items() if L.get('multi') and L.get('lps')]
             if hot and i(0, 4) == 0:
                 # a multi link that carries link properties is narrowed to single
@@ -482,6 +482,18 @@ def _strategy():
                 types.pop(t)
                 for X in types.values():
                     X['bases'] = [b for b in X['bases'] if b != t]
+            elif alll and i(0, 2) == 0:
+                # retarget a link, with and without a USING expression that can be empty
+                ln = pick(alll)
+                tgt = pick(live)
+                if i(0, 2):
+                    stmts.append(['link-set-type', f'alter type {t} alter link {ln} set type {tgt} using (.{ln}[is {tgt}])'])
+                else:
+                    stmts.append(['link-set-type', f'alter type {t} alter link {ln} set type {tgt}'])
+            elif allp and i(0, 2) == 0:
+                p = pick(allp)
+                ty = pick(['str', 'int64'])
+                stmts.append(['prop-set-type', f'alter type {t} alter property {p} set type {ty} using (<{ty}>.{p})'])
             else:
                 p = pick(PROPS)
                 stmts.append(['add-computed', f'alter type {t} create property c{p} := (1)'])
@@ -489,7 +501,7 @@ def _strategy():
     return cases()
 
 
-STORAGE_CHANGES = {'prop-set-multi', 'prop-set-single', 'link-set-multi', 'link-set-single', 'add-linkprop',
+STORAGE_CHANGES = {'link-set-type', 'prop-set-type', 'prop-set-multi', 'prop-set-single', 'link-set-multi', 'link-set-single', 'add-linkprop',
                    'drop-linkprop', 'prop-to-computed', 'prop-to-stored', 'link-to-computed', 'link-to-stored',
                    'add-base', 'drop-base', 'drop-type', 'drop-prop', 'drop-link', 'set-abstract', 'reset-abstract'}
 
